@@ -127,7 +127,7 @@ def oracle(case, obs):
         if o['labels'] != exp:
             return {'key': 'labels', 'what': f"labels {o['labels']} expected {exp}"}
     cur_shape = shape
-    for op, oo in zip(case['ops'], obs['ops']):
+    for j_op, (op, oo) in enumerate(zip(case['ops'], obs['ops'])):
         if op['op'] in ('set_dim', 'set_units', 'set_name'):
             if op['n'] >= rank:
                 if not oo.get('raised'):
@@ -170,7 +170,7 @@ def oracle(case, obs):
                     return {'key': 'label-addresses-wrong-slice', 'what': f"ar[{s['label']!r}] is not slice {s['i']}"}
                 if s.get('tuple_index') is False:
                     return {'key': 'label-tuple-index', 'what': f"ar[{s['label']!r}, i, ...] is not ar[{s['label']!r}].data[i, ...]"}
-                cur = obs['init'] if not any(x.get('arr') for x in obs['ops'][:obs['ops'].index(oo)]) else [x['arr'] for x in obs['ops'][:obs['ops'].index(oo)] if x.get('arr')][-1]
+                cur = obs['init'] if not any(x.get('arr') for x in obs['ops'][:j_op]) else [x['arr'] for x in obs['ops'][:j_op] if x.get('arr')][-1]
                 a = s['arr']
                 if a['dims'] != cur['dims'] or a['units'] != cur['units'] or a['names'] != cur['names'] or a['shape'] != cur['shape']:
                     return {'key': 'slice-calibrations', 'what': f"ar[{s['label']!r}] does not carry the array's calibrations"}
